@@ -11,6 +11,7 @@
 
 #include "meta.h"
 #include "array.h"
+#include "values.h"
 #include "vf.h"
 
 const char *vf_name = "c04_cxx";
@@ -480,11 +481,107 @@ static void case_pointers(vf_rng *r)
 }
 
 static uint64_t n_arr(void) { return vf_thorough ? 900000 : 40000; }
+
+/* ------------------------------------------------------------ value stores */
+static void case_store(vf_rng *r)
+{
+	/* mpt::value_store: typed copy-on-write data of one plot dimension; copies share the buffer */
+	mpt::value_store st[3];
+	std::vector<double> sh[3];
+	static double next = 1.0;
+	int nops = vf_range(r, 6, 40), shared_writes = 0;
+	vf_fp_u64(0x57043);
+	for (int i = 0; i < nops; i++) {
+		int op = (int) vf_below(r, 7), h = (int) vf_below(r, 3), g = (int) vf_below(r, 3);
+		size_t n = sh[h].size();
+		const mpt::array::content *c0 = st[h].data();
+		bool shared = c0 && const_cast<mpt::array::content *>(c0)->shared();
+		char cb[200];
+		std::string ctx;
+		switch (op) {
+		case 0: case 1: case 2: {
+			long count;
+			switch (vf_below(r, 5)) {
+			case 0: count = -1; break;
+			case 1: count = (long) n; break;
+			case 2: count = (long) vf_below(r, (uint32_t) n + 1); break;
+			default: count = (long) n + (long) vf_below(r, 12); break;
+			}
+			if (count > 200) count = 200;
+			snprintf(cb, sizeof(cb), "value_store::reserve<double>(%ld) h=%d count=%zu%s", count, h, n, shared ? " shared" : "");
+			ctx = cb; vf_log("%s", cb);
+			vf_at("value_store::reserve"); vf_count("value_store_reserve", 1);
+			if (shared) { vf_count("state:shared", 1); shared_writes++; if (count < 0 || (size_t) count <= n) vf_count("state:reserve-within-shared-length", 1); }
+			mpt::content<double> *c = st[h].reserve<double>(count);
+			VF_CHECK(c != 0, "cxx:store_reserve:refused", "%s", ctx.c_str());
+			VF_CHECK(c == static_cast<const void *>(st[h].data()), "cxx:store_reserve:return-buffer", "%s: returned content is not the store's", ctx.c_str());
+			size_t have = (size_t) c->length();
+			if (count < 0) VF_CHECK(have == n, "cxx:store_reserve:target-length", "%s: %zu values after keep-size reserve", ctx.c_str(), have);
+			else if ((size_t) count >= n) VF_CHECK(have == (size_t) count, "cxx:store_reserve:target-length", "%s: %zu values", ctx.c_str(), have);
+			else VF_CHECK(have >= (size_t) count && have <= n, "cxx:store_reserve:target-length", "%s: %zu values", ctx.c_str(), have);
+			sh[h].resize(have, 0.0);
+			VF_CHECK(!c->shared(), "cxx:store_reserve:still-shared", "%s: writable content is shared with another store", ctx.c_str());
+			/* the caller writes through the returned content */
+			double *d = c->data().begin();
+			size_t w = have ? 1 + vf_below(r, (uint32_t) have) : 0;
+			for (size_t j = 0; j < w; j++) { d[j] = sh[h][j] = next; next += 0.5; }
+			break; }
+		case 3: {
+			size_t cnt = 1 + vf_below(r, 6), pos = vf_below(r, (uint32_t) n + 2);
+			double v[6];
+			for (size_t j = 0; j < cnt; j++) { v[j] = next; next += 0.5; }
+			snprintf(cb, sizeof(cb), "value_store::set<double>(%zu values at %zu) h=%d count=%zu%s", cnt, pos, h, n, shared ? " shared" : "");
+			ctx = cb; vf_log("%s", cb);
+			vf_at("value_store::set"); vf_count("value_store_set", 1);
+			if (shared) { vf_count("state:shared", 1); shared_writes++; }
+			double *p = st[h].set(mpt::span<const double>(v, cnt), (long) pos);
+			VF_CHECK(p != 0, "cxx:store_set:refused", "%s", ctx.c_str());
+			if (sh[h].size() < pos + cnt) sh[h].resize(pos + cnt, 0.0);
+			for (size_t j = 0; j < cnt; j++) sh[h][pos + j] = v[j];
+			break; }
+		case 4:
+			snprintf(cb, sizeof(cb), "value_store copy h=%d <- g=%d", h, g);
+			ctx = cb; vf_log("%s", cb);
+			vf_count("value_store_copy", 1);
+			st[h] = st[g]; sh[h] = sh[g];
+			break;
+		case 5:
+			snprintf(cb, sizeof(cb), "value_store drop h=%d", h);
+			ctx = cb; vf_log("%s", cb);
+			st[h] = mpt::value_store(); sh[h].clear();
+			break;
+		default: {
+			snprintf(cb, sizeof(cb), "value_store copy-construct from h=%d, reserve on the copy", h);
+			ctx = cb; vf_log("%s", cb);
+			vf_count("value_store_copy_construct", 1);
+			mpt::value_store tmp(st[h]);
+			if (n) {
+				mpt::content<double> *c = tmp.reserve<double>(-1);
+				VF_CHECK(c != 0, "cxx:store_reserve:refused", "%s", ctx.c_str());
+				c->data().begin()[0] = -1.0;   /* must stay private to tmp */
+			}
+			break; }
+		}
+		vf_fp_u64(((uint64_t) op << 32) ^ (h << 8) ^ g);
+		for (int k = 0; k < 3; k++) {
+			const mpt::array::content *c = st[k].data();
+			size_t have = c ? c->length() / sizeof(double) : 0;
+			const char *w = k == h ? "target" : "other-handle";
+			if (have != sh[k].size()) { snprintf(keybuf, sizeof(keybuf), "cxx:value_store:%s-length", w); vf_fail(keybuf, "%s: store %d has %zu values, model %zu", ctx.c_str(), k, have, sh[k].size()); }
+			if (have && memcmp(c->data(), sh[k].data(), have * sizeof(double))) { snprintf(keybuf, sizeof(keybuf), "cxx:value_store:%s-content", w); vf_fail(keybuf, "%s: store %d content differs from the model", ctx.c_str(), k); }
+		}
+		vf_count("monitor:value-store-readbacks", 1);
+	}
+	if (shared_writes >= 2) vf_nontrivial();
+	vf_sample("value_store x3: %d reserve/set/copy/drop operations, %d on shared data", nops, shared_writes);
+}
+
 static uint64_t n_typed(void) { return vf_thorough ? 600000 : 20000; }
 static uint64_t n_uniq(void) { return vf_thorough ? 100000 : 10000; }
 static uint64_t n_map(void) { return vf_thorough ? 100000 : 10000; }
 static uint64_t n_ptr(void) { return vf_thorough ? 100000 : 10000; }
-uint64_t vf_cases(void) { return n_arr() + n_typed() + n_uniq() + n_map() + n_ptr(); }
+static uint64_t n_store(void) { return vf_thorough ? 200000 : 20000; }
+uint64_t vf_cases(void) { return n_arr() + n_typed() + n_uniq() + n_map() + n_ptr() + n_store(); }
 void vf_case(uint64_t idx, vf_rng *r)
 {
 	if (idx < n_arr()) { case_arrays(r); return; }
@@ -494,5 +591,7 @@ void vf_case(uint64_t idx, vf_rng *r)
 	if (idx < n_uniq()) { run_typed<mpt::unique_array<uint32_t>, true>(r, "unique_array"); return; }
 	idx -= n_uniq();
 	if (idx < n_map()) { case_map(r); return; }
-	case_pointers(r);
+	idx -= n_map();
+	if (idx < n_ptr()) { case_pointers(r); return; }
+	case_store(r);
 }
